@@ -165,6 +165,8 @@ fn corpus() -> Vec<&'static str> {
         "prog 5 3 0 - eq v0 v0 infd v0 I 0 6 infd v1 I 0 6 infd v2 I 0 6 infd v3 I 0 6 infd v4 I 0 6 plusfd v0 v1 v3 plusfd v1 v2 v4 ltefd v3 v4 diseqfd v0 v2 ltefd v2 v3 plusfd v0 v4 i7 distinctfd cons v0 cons v1 cons v2 nil",
         "prog 3 3 0 - neq v0 v1 neq v1 v2 neq v0 v2 neq cons v0 cons v1 nil cons i1 cons i2 nil",
         "prog 1 1 6 - loop 1 1 conde 3 1 eq i1 v0 1 eq i2 v0 1 eq i3 v0",
+        // C09-m: a `loop` whose body diverges without an answer, next to a clause with an answer
+        "prog 1 1 1 - conde 2 1 loop 1 3 always eq v0 i2 eq v0 i3 1 eq v0 i1",
         "prog 3 3 5 - call append 3 v0 v1 v2",
         "prog 2 2 0 - infd v0 I 0 3 infd v1 I 0 3 ltfd v0 v1",
         // D21 (known finding): finite-domain propagation under a disjunction — the answers come in a hash-order
@@ -188,6 +190,49 @@ pub fn run(seed: u64, thorough: bool, out: &mut Out) {
     for l in corpus() {
         out.stat("corpus");
         replay(l, out);
+    }
+    // (e) PRODUCTIVE NEXT TO A FRUITLESS INFINITE SIBLING (both tiers): `conde { STARVER, ANSWERS }` (either clause order), where
+    // STARVER searches forever without an answer — a `loop`/anyo whose body is an infinite generator followed by a test nothing
+    // passes, or `never`, or `always` followed by a failing test — and ANSWERS has `k` known answers.  `take(k)` must return
+    // them within the step budget: the search yields `k` answers after finitely many steps.  (Seeded change C09-m: `Anyo::solve`
+    // probed its body with a blocking `peek`, so a body that diverges without an answer starved its siblings.)
+    {
+        let mut r = Rng::new(seed, 909, 0);
+        for _ in 0..(if thorough { 200 } else { 24 }) {
+            let k = 1 + r.below(3);
+            let answers: Vec<Vec<PG>> = (0..k).map(|i| vec![PG::Eq(T::Var(0), T::Num(10 + i as isize))]).collect();
+            let contradiction = |r: &mut Rng| -> Vec<PG> {
+                match r.below(3) {
+                    0 => vec![PG::Eq(T::Var(0), T::Num(2)), PG::Eq(T::Var(0), T::Num(3))],
+                    1 => vec![PG::Eq(T::Var(1), T::Num(1)), PG::Neq(T::Var(1), T::Num(1))],
+                    _ => vec![PG::Fail],
+                }
+            };
+            let starver = match r.below(4) {
+                0 => {
+                    let mut b = vec![PG::Always];
+                    b.extend(contradiction(&mut r));
+                    PG::Loop(vec![b])
+                }
+                1 => {
+                    let mut b = vec![PG::Always];
+                    b.extend(contradiction(&mut r));
+                    PG::Conj(b)
+                }
+                2 => PG::Loop(vec![vec![PG::Call("append".into(), vec![T::Var(1), T::Var(2), T::Var(3)]), PG::Eq(T::Var(3), T::Num(7))]]),
+                _ => PG::Never,
+            };
+            let mut clauses: Vec<Vec<PG>> = vec![vec![PG::Conde(answers)]];
+            let pos = r.below(2);
+            clauses.insert(pos, vec![starver]);
+            let p = Prog { nvars: 4, nq: 1, take: k, body: vec![PG::Conde(clauses)], raw: false };
+            out.stat("fruitless_sibling_scenarios");
+            let (line, mut fail, nt, fuel) = eval(&p, false);
+            if fail.is_none() && (line.contains("BUDGET") || line.split(" || ").count() != k) {
+                fail = Some(format!("take({}) next to a fruitless infinite sibling did not return the {} answers within the step budget: {}", k, k, line));
+            }
+            out.push(p.line_f(fuel), line, fail, nt);
+        }
     }
     let n = if thorough { 3000 } else { 300 };
     for i in 0..n {
